@@ -87,14 +87,15 @@ Definition LInv (L : Z) (t : tree) (s : list field) : Prop :=
 Definition Stable (s s' : list field) : Prop :=
   (forall g st l, frange s g = Some (st, l) -> frange s' g = Some (st, l)) /\
   (forall g, f_max (sget s' g) = f_max (sget s g) /\ f_tags (sget s' g) = f_tags (sget s g)) /\
-  (forall g l, f_len (sget s g) = Some l -> f_len (sget s' g) = Some l).
+  (forall g l, f_len (sget s g) = Some l -> f_len (sget s' g) = Some l) /\
+  (forall g p, f_start (sget s g) = Some p -> f_start (sget s' g) = Some p).
 
 Lemma Stable_refl s : Stable s s.
 Proof. repeat split; auto. Qed.
 
 Lemma Stable_trans a b c : Stable a b -> Stable b c -> Stable a c.
 Proof.
-  intros [A1 [A2 A3]] [B1 [B2 B3]]. repeat split; auto.
+  intros [A1 [A2 [A3 A4]]] [B1 [B2 [B3 B4]]]. repeat split; auto.
   - destruct (B2 g) as [-> _]. apply A2.
   - destruct (B2 g) as [_ ->]. apply A2.
 Qed.
@@ -111,7 +112,8 @@ Lemma assign_field_ok L orig a f a' f' :
   exists st l, f' = set_pos f l st /\ 0 <= st /\ 0 < l /\ st + l <= L
     /\ (f_len f = Some l \/ (f_len f = None /\ l = bitlen (f_max f)))
     /\ (forall k, st <= k < st + l -> Z.testbit a k = false)
-    /\ (forall k, Z.testbit a' k = Z.testbit a k || Z.testbit (range_mask st l) k).
+    /\ (forall k, Z.testbit a' k = Z.testbit a k || Z.testbit (range_mask st l) k)
+    /\ (forall p, f_start f = Some p -> st = p).
 Proof.
   intros H Hpos. unfold assign_field in H.
   set (len := match f_len f with Some l => l | None => bitlen (f_max f) end) in *.
@@ -129,6 +131,7 @@ Proof.
     repeat split; auto; try lia.
     + apply land_range_zero; auto; lia.
     + intros k. apply Z.lor_spec.
+    + intros p Hp. congruence.
   - destruct (first_fit _ 0 a (Z.shiftl 1 len - 1)) as [bit|] eqn:Ef.
     + destruct (bit + len <=? L) eqn:E2; [|discriminate]. apply Z.leb_le in E2.
       inversion H; subst a' f'.
@@ -137,6 +140,7 @@ Proof.
       repeat split; auto; try lia.
       * apply land_range_zero; auto; lia.
       * intros k. apply Z.lor_spec.
+      * intros p Hp. discriminate.
     + destruct (L + len <=? L) eqn:E2; [|discriminate]. apply Z.leb_le in E2. lia.
 Qed.
 
@@ -188,10 +192,11 @@ Lemma place_keeps_inv L t n s fv i f0 a a' st l :
   (f_len (sget s f0) = Some l \/ (f_len (sget s f0) = None /\ l = bitlen (f_max (sget s f0)))) ->
   (forall k, st <= k < st + l -> Z.testbit a k = false) ->
   (forall k, Z.testbit a' k = Z.testbit a k || Z.testbit (range_mask st l) k) ->
+  (forall p0, f_start (sget s f0) = Some p0 -> st = p0) ->
   let s' := sset s f0 (set_pos (sget s f0) l st) in
   LInv L t s' /\ Covers t s' fv a' /\ Stable s s' /\ frange s' f0 = Some (st, l).
 Proof.
-  intros W Hn Hin [HD [HR HM]] HC Hnone Hst Hl HL Hlen Hfree Ha' s'.
+  intros W Hn Hin [HD [HR HM]] HC Hnone Hst Hl HL Hlen Hfree Ha' Hkeep s'.
   assert (Hb : (f0 < length s)%nat). { rewrite Hn. apply (wf_bound _ _ W _ Hin). }
   assert (Hnew : frange s' f0 = Some (st, l)) by (apply frange_set_pos; exact Hb).
   assert (Hoth : forall g, f0 <> g -> frange s' g = frange s g) by (intros; now apply frange_sset_other).
@@ -245,7 +250,7 @@ Proof.
       rewrite (proj2 (range_mask_bit st0 l0 k Hst ltac:(lia))) by lia. apply orb_true_r.
     + rewrite Hoth in Hr by congruence. rewrite (HC _ _ _ He Hc Hr _ Hk). reflexivity.
   - (* Stable *)
-    split; [|split].
+    split; [|split; [|split]].
     + intros g st0 l0 Hr. destruct (Nat.eq_dec f0 g) as [<-|N]; [congruence|]. now rewrite Hoth.
     + intros g. subst s'. destruct (Nat.eq_dec f0 g) as [<-|N].
       * rewrite sget_sset_same by exact Hb. simpl. auto.
@@ -253,6 +258,9 @@ Proof.
     + intros g l0 El0. subst s'. destruct (Nat.eq_dec f0 g) as [<-|N].
       * rewrite sget_sset_same by exact Hb. simpl.
         destruct Hlen as [Hl1|[Hl1 _]]; congruence.
+      * now rewrite sget_sset_other by exact N.
+    + intros g p0 Hp0. subst s'. destruct (Nat.eq_dec f0 g) as [<-|N].
+      * rewrite sget_sset_same by exact Hb. simpl. f_equal. now apply Hkeep.
       * now rewrite sget_sset_other by exact N.
 Qed.
 
@@ -297,7 +305,7 @@ Proof.
       destruct (assign_field L orig a (sget s f0)) as [[a' f']| | |] eqn:Ea;
         try (inversion H; subst; same_store HI; discriminate).
       destruct HI as [HD [HR HM]].
-      destruct (assign_field_ok _ _ _ _ _ _ Ea) as [st [l [Hf' [P1 [P2 [P3 [P4 [P5 P6]]]]]]]].
+      destruct (assign_field_ok _ _ _ _ _ _ Ea) as [st [l [Hf' [P1 [P2 [P3 [P4 [P5 [P6 P7]]]]]]]]].
       { intros l Hl. apply (proj2 (HM _ Hin0)). exact Hl. }
       subst f'.
       destruct (place_keeps_inv L t n s fv i f0 a a' st l W Hn Hin0 (conj HD (conj HR HM)) HC)
@@ -312,7 +320,7 @@ Proof.
       destruct (assign_field L orig a (sget s f0)) as [[a' f']| | |] eqn:Ea;
         try (inversion H; subst; same_store HI; discriminate).
       destruct HI as [HD [HR HM]].
-      destruct (assign_field_ok _ _ _ _ _ _ Ea) as [st [l [Hf' [P1 [P2 [P3 [P4 [P5 P6]]]]]]]].
+      destruct (assign_field_ok _ _ _ _ _ _ Ea) as [st [l [Hf' [P1 [P2 [P3 [P4 [P5 [P6 P7]]]]]]]]].
       { intros l Hl. apply (proj2 (HM _ Hin0)). exact Hl. }
       subst f'.
       destruct (place_keeps_inv L t n s fv i f0 a a' st l W Hn Hin0 (conj HD (conj HR HM)) HC)
@@ -328,7 +336,7 @@ Proof.
       destruct (assign_field L orig a (sget s f0)) as [[a' f']| | |] eqn:Ea;
         try (inversion H; subst; same_store HI; discriminate).
       destruct HI as [HD [HR HM]].
-      destruct (assign_field_ok _ _ _ _ _ _ Ea) as [st [l [Hf' [P1 [P2 [P3 [P4 [P5 P6]]]]]]]].
+      destruct (assign_field_ok _ _ _ _ _ _ Ea) as [st [l [Hf' [P1 [P2 [P3 [P4 [P5 [P6 P7]]]]]]]]].
       { intros l Hl. apply (proj2 (HM _ Hin0)). exact Hl. }
       subst f'.
       destruct (place_keeps_inv L t n s fv i f0 a a' st l W Hn Hin0 (conj HD (conj HR HM)) HC)
